@@ -74,6 +74,16 @@ CHECKS['C05'] = dict(
    note='Trusted: as C11 / C01. Hungarian is tied to its model by sampled lines only. The rising Hungarian tail beyond the zero point lies outside the range the property states (reported as a note before the fix; repaired together with the negatives).',
    technique='Lean 4 generic monotonicity proofs + decide +kernel side-conditions on regenerated tables + exhaustive adjacent-pair sweep of the implementation',
    ref='7/C05')
+CHECKS['C14'] = dict(
+   text='Machine-checked proofs over an exact rational model (core Rat) of the WMA age grader on tables regenerated from the three JSON files on every run: interpolated factors are positive (generic convex-combination lemma + kernel-decided positivity of every non-null entry), the grade is (best/factor)/time for timed kinds and mark/(best/factor) for field kinds, the open best at factor 1 grades exactly 1, a better performance grades strictly higher, factor / best / grade are independent of the letter case of the event and of the gender spelling (first letter, any case; others rejected), ages past the last column use the last column. Correspondence of the real wrappers with the model (floats vs exact rationals within 1e-9 relative) over both years + athlons x gender spellings x every tabulated event in both cases x integer and half-integer ages x marks around the open best; all table entries are dumped back through the driver each run.',
+   note='Trusted: Lean kernel; axioms propext, Classical.choice, Quot.sound; tools/gen_wma.py; float results compared within 1e-9. Known findings: 2015 women\'s PV has no factors past 90 (data); wma_athlon_age_grade has no open bests in its table.',
+   technique='Lean 4 proof (exact rational model) + decide +kernel on regenerated tables + float-tolerant exhaustive correspondence',
+   ref='7/C14')
+CHECKS['C15'] = dict(
+   text='Machine-checked proofs: linear interpolation lies between its end points; the speed-interpolated best is a Moebius function monotone between its bracket bests; factor betweenness for any table; the bracket rows found by the linear scan are the nearest shorter and longer tabulated events under a decidable no-seam condition; global monotonicity of the interpolated best over all distances under decidable chain conditions; distances shorter / longer than every row use the end row; all side-conditions kernel-decided over the regenerated tables. Correspondence of wma_age_factor / wma_world_best with the model and betweenness / monotonicity on the implementation over every whole metre 20 m .. 400 km and every N[.dd]K / N[.dd]M spelling x gender x 12 ages x both years (strided in quick).',
+   note='Trusted: as C14; "nearest tabulated events" read with ties (5000 and 5K both at 5 km); int(1000*float) binary truncation passed as an observed hint checked to be at most 1 m below the exact floor.',
+   technique='Lean 4 proof (interpolation lemmas, bracket theorem) + decide +kernel side-conditions on regenerated tables + exhaustive distance sweep',
+   ref='7/C15')
 NOT_YET = {}
 def main():
     props = [json.loads(l) for l in open(os.path.join(HERE, 'properties.jsonl'))]
